@@ -5,6 +5,8 @@
 package p04
 
 import (
+	"errors"
+	"runtime"
 	"sync"
 	"bufio"
 	"bytes"
@@ -275,9 +277,48 @@ type countDB struct {
 	n      int
 	before func(k int) // called before the k-th commit is attempted
 	after  func(k int)
+	// fault injection: the failFlush-th injectable index flush fails (0 = none)
+	countFlush bool
+	flushSeen  int
+	failFlush  int
 }
 
+// injectableFlush: the write transaction about to start is a block-index flush whose error btcd
+// handles by design (the flush right after dbStoreBlock in maybeAcceptBlock, which is returned to
+// the caller before anything else happened, and the flushes whose error connectBestChain ignores) —
+// not the ones inside connectBlock / disconnectBlock / initChainState.
+func injectableFlush() bool {
+	pcs := make([]uintptr, 24)
+	n := runtime.Callers(3, pcs)
+	fr := runtime.CallersFrames(pcs[:n])
+	flush := false
+	for {
+		f, more := fr.Next()
+		switch {
+		case strings.HasSuffix(f.Function, "(*blockIndex).flushToDB"):
+			flush = true
+		case strings.HasSuffix(f.Function, "(*BlockChain).connectBlock"),
+			strings.HasSuffix(f.Function, "(*BlockChain).disconnectBlock"),
+			strings.HasSuffix(f.Function, "(*BlockChain).initChainState"):
+			return false
+		}
+		if !more {
+			break
+		}
+	}
+	return flush
+}
+
+var errInjected = errors.New("injected write failure")
+
 func (c *countDB) Update(fn func(tx database.Tx) error) error {
+	if c.countFlush && injectableFlush() {
+		c.flushSeen++
+		if c.flushSeen == c.failFlush {
+			// a transient I/O error: this write transaction fails, nothing of it is committed
+			return errInjected
+		}
+	}
 	if c.before != nil {
 		c.before(c.n + 1)
 	}
@@ -719,6 +760,7 @@ type life struct {
 	bad    string
 	// snapshots handed out earlier whose contents changed afterwards (results are values)
 	snapChanged int
+	nInject     int                // index flushes of this life at which a write failure may be injected
 	synced      []map[uint32]int64 // synced[k]: fsynced length of every block file written in this life, after commit k
 	bestAt      []int        // bestAt[k]: persisted best block after commit k (property level: "made active")
 	connected   map[int]bool // blocks this life connected at some point
@@ -730,6 +772,7 @@ type run struct {
 	w    *world
 	l1   *life
 	lz   *life // the same workload with a lazily flushed metadata cache (op `lazy`)
+	fl   map[int]*life // the same workload with the f-th injectable index flush failing (op `flt`)
 	// second lives, by first-level crash index
 	l2 map[int]*life
 }
@@ -797,6 +840,10 @@ func runLife(root string, startDir string, w *world, c cfg, ops []string) *life 
 const lazyPeriod = 7 // longer than one delivery (5 commits): a block can sit unsynced in a file while the next one rolls over
 
 func runLifeMode(root string, startDir string, w *world, c cfg, ops []string, lazy bool) *life {
+	return runLifeFault(root, startDir, w, c, ops, lazy, 0)
+}
+
+func runLifeFault(root string, startDir string, w *world, c cfg, ops []string, lazy bool, failFlush int) *life {
 	os.MkdirAll(root, 0o755)
 	l := &life{root: root, w: w, c: c, ops: ops, ackEnd: map[int]int{}}
 	live := filepath.Join(root, "live")
@@ -815,7 +862,7 @@ func runLifeMode(root string, startDir string, w *world, c cfg, ops []string, la
 	defer closeDB(raw)
 	l.pers = []string{""}
 	l.window = []string{"-"}
-	cdb := &countDB{DB: raw}
+	cdb := &countDB{DB: raw, countFlush: true, failFlush: failFlush}
 	l.bestAt = []int{0}
 	l.synced = []map[uint32]int64{nil}
 	l.connected = map[int]bool{}
@@ -916,6 +963,7 @@ func runLifeMode(root string, startDir string, w *world, c cfg, ops []string, la
 		}
 	}
 	l.n = cdb.n
+	l.nInject = cdb.flushSeen
 	l.finTip = w.id(&ch.BestSnapshot().Hash)
 	for _, sn := range snaps {
 		if *sn.p != sn.v {
@@ -1387,6 +1435,60 @@ func (P) exec(line string) string {
 			real = fmt.Sprintf("n=%d out-of-range", l.n)
 		}
 		return judge(strings.Join(t, " "), real, v)
+	case "flt":
+		// A transient write failure: the f-th index flush whose error btcd handles by design fails
+		// (nothing of that transaction is committed), the workload goes on, the process dies after
+		// commit k.  No exact model of the error paths: judged at the level of the property only;
+		// the Spec's answer is "flt=ok".
+		if len(t) != 8 {
+			return "malformed"
+		}
+		f, err1 := strconv.Atoi(t[6])
+		k, err2 := strconv.Atoi(t[7])
+		if err1 != nil || err2 != nil || f < 1 || k < 1 {
+			return "malformed"
+		}
+		r, c, ops, ok := getRun(append([]string{"C04", "img"}, t[2:6]...))
+		if !ok {
+			return "malformed"
+		}
+		if r.l1.bad != "" {
+			return r.l1.bad
+		}
+		if r.fl == nil {
+			r.fl = map[int]*life{}
+		}
+		l := r.fl[f]
+		if l == nil {
+			for ff, old := range r.fl {
+				os.RemoveAll(old.root)
+				delete(r.fl, ff)
+			}
+			l = runLifeFault(filepath.Join(r.root, fmt.Sprintf("fl-%d", f)), "", r.w, c, ops, false, f)
+			r.fl[f] = l
+		}
+		if l.bad != "" {
+			return "flt:" + l.bad
+		}
+		if k > l.n {
+			k = l.n
+		}
+		conn := map[int]bool{}
+		for id := range r.l1.connected {
+			conn[id] = true
+		}
+		for id := range l.connected {
+			conn[id] = true
+		}
+		rs, v := reopenV(r.root, l.img(k), r.w, c.life(2), l.acked(k), ops,
+			pctx{prev: prevSet(l.bestAt[:k+1]), conn: conn, specFin: r.l1.finTip})
+		v.prunedTip = !v.reopened && prunedTip(c, l.pers[k])
+		line := strings.Join(t, " ")
+		lastVerdict[line] = v
+		if v.propertyHolds() {
+			return "flt=ok"
+		}
+		return fmt.Sprintf("flt=FAILED n=%d res=%s %s %s", l.n, strings.Join(l.res, "."), l.pers[k], rs)
 	case "lazy":
 		// The metadata cache is NOT written through: only every lazyPeriod-th commit reaches
 		// leveldb; the image after commit k is the directory as a power loss leaves it (leveldb
@@ -2062,6 +2164,16 @@ func (P) Generate(g *core.Gen) {
 		for i := 0; lazyHere && i < 3 && n > 8; i++ {
 			g.Case(class+"-lazy", true, fmt.Sprintf("C04 lazy %s %d", key, lazyPeriod+g.R.Intn(n-lazyPeriod+1)))
 		}
+		// transient write failure at an index flush (where btcd handles the error by design), then a crash
+		fltHere := prune == "0" && (g.Thorough() || class == "reorg" || class == "tree" || class == "reorg-invalid" || class == "reorg-deep")
+		for i := 0; fltHere && i < 3 && r.l1.nInject > 0; i++ {
+			f := 1 + g.R.Intn(r.l1.nInject)
+			k := 999 // the end of the faulted run
+			if i > 0 {
+				k = 4 + g.R.Intn(n)
+			}
+			g.Case(class+"-flt", true, fmt.Sprintf("C04 flt %s %d %d", key, f, k))
+		}
 		// power-loss images: block files cut back to what had been fsynced at commit k
 		nsync := 1
 		if g.Thorough() {
@@ -2217,7 +2329,7 @@ func (P) Generate(g *core.Gen) {
 		"C04 img 2 0 1:0:- d1 1", "C04 img 0 0 1:1:- d1 1", "C04 img 0 0 1:0:- d2 1", "C04 img 0 0 1:0:- d1 0",
 		"C04 img 0 0 1:0:-:y d1 1", "C04 img 0 0 1:0:-,1:0:- d1 1", "C04 img 0 0 - - 1", "C04 img 0 0 - - 3", "C04 img 0 0 - - 4",
 		"C04 img 0 0 1:0:- d1", "C04 nop", "C04 img 0 500:1000 1:0:- d1 1", "C04 img 0 1000:0 1:0:- d1 1",
-		"C04 img2 0 0 1:0:- d1 4 0", "C04 sync 0 0 1:0:- d1", "C04 sync 0 0 1:0:- d1 0", "C04 lazy 0 0 1:0:- d1 6", "C04 lazy 0 0 1:0:- d1 7", "C04 lazy 0 0 1:0:- d1 99", "C04 lazy 0 0 1:0:- d1", "C04 par 0 0 1:0:- d1 4", "C04 par 0 0 1:0:- d1 4.0", "C04 par 0 0 1:0:- d1 4.x", "C04 img 1>2 0 1:0:- d1 4", "C04 img 1>0>1>0 0 1:0:- d1 4", "C04 img > 0 1:0:- d1 4", "C04 img 1>0 0 1:0:- d1 4", "C04 img2 0 0 1:0:- d1 4 1", "C04 img2 0 0 1:0:- d1 4 99", "C04 torn 0 0 1:0:- d1 5",
+		"C04 img2 0 0 1:0:- d1 4 0", "C04 sync 0 0 1:0:- d1", "C04 sync 0 0 1:0:- d1 0", "C04 flt 0 0 1:0:- d1 0 5", "C04 flt 0 0 1:0:- d1 1 0", "C04 flt 0 0 1:0:- d1 1", "C04 flt 0 0 1:0:- d1 99 5", "C04 lazy 0 0 1:0:- d1 6", "C04 lazy 0 0 1:0:- d1 7", "C04 lazy 0 0 1:0:- d1 99", "C04 lazy 0 0 1:0:- d1", "C04 par 0 0 1:0:- d1 4", "C04 par 0 0 1:0:- d1 4.0", "C04 par 0 0 1:0:- d1 4.x", "C04 img 1>2 0 1:0:- d1 4", "C04 img 1>0>1>0 0 1:0:- d1 4", "C04 img > 0 1:0:- d1 4", "C04 img 1>0 0 1:0:- d1 4", "C04 img2 0 0 1:0:- d1 4 1", "C04 img2 0 0 1:0:- d1 4 99", "C04 torn 0 0 1:0:- d1 5",
 	} {
 		g.Case("malformed", false, l)
 	}
